@@ -1,6 +1,6 @@
 SPECIFICATION Spec
 CONSTANTS
-  MaxSpans = 7
+  MaxSpans = 8
   MaxTraces = 1
   Services <- SvcABC
   MaxErrors = 0
@@ -9,6 +9,7 @@ CONSTANTS
   Orders = {"fwd", "rev", "rot"}
   PageSize = 50
   MinSpans = 1
+  MinEntries = 0
   ResolveInTrace = TRUE
 CONSTRAINT EmitPlan
 CHECK_DEADLOCK FALSE
